@@ -39,6 +39,7 @@ def run(ctx):
         M = ctx.model(cfg)
         units = families.subwaker_units(M, ("merge",), groups=False)
         divides = indexer_divides_unguarded(ctx, M)
+        c01.live_premises(ctx, M, units, "C08.LIVE")
         for u in units:
             rets, claimed = racelike.rule_win(ctx, M, u, "C08.ITEM", ("Ready", "Some"), "Ready(Some)")
             loose = [r for r in rets if r[0] not in claimed]
@@ -47,11 +48,9 @@ def run(ctx):
             with ctx.renamed({"C01.REARM": "C08.ITEM"}):
                 c01.rule_rearm(ctx, u)
             rule_end(ctx, M, u)
-            with ctx.renamed({"C03.GUARD": "C08.ONCE", "C03.MARK": "C08.ONCE", "C01.TOKEN": "C08.LIVE", "C01.REG": "C08.LIVE"}):
+            with ctx.renamed({"C03.GUARD": "C08.ONCE", "C03.MARK": "C08.ONCE"}):
                 c03.rule_guard(ctx, u)
                 c03.rule_mark(ctx, u)
-                c01.rule_token(ctx, u)
-                c01.rule_reg(ctx, u)
             if u.container in ("array", "vec"):
                 rule_zero(ctx, M, u, divides)
         joinlike.rule_zero_tuple0(ctx, M, "merge", "C08.ZERO", "Ready(None)")
